@@ -553,10 +553,10 @@ theorem tagRel_length {o1 o2 : List LScope} (h : TagRel o1 o2) : o1.length = o2.
 
 def eraseTagPair (as : String × Src) : String × Src := (as.1, as.2.eraseTag)
 
-theorem expSrc_sim {mk1 mk2 : String → Option String} {r1 r2 : RecDef} (hr : RecSim r1 r2) (look : Look)
-    (m : List Nat) (as : String × Src) (o1 o2 : List LScope) (h : TagRel o1 o2) :
-    eraseTagPair (expSrc mk1 r1 look m as o1).1 = eraseTagPair (expSrc mk2 r2 look m as o2).1 ∧
-      TagRel (expSrc mk1 r1 look m as o1).2 (expSrc mk2 r2 look m as o2).2 := by
+theorem expSrc_sim {mk1 mk2 : String → Option String} {al : AliasFn} {r1 r2 : RecDef} (hr : RecSim r1 r2) (look : Look)
+    (cx : FragCtx) (m : List Nat) (as : String × Src) (o1 o2 : List LScope) (h : TagRel o1 o2) :
+    eraseTagPair (expSrc mk1 al r1 look cx m as o1).1 = eraseTagPair (expSrc mk2 al r2 look cx m as o2).1 ∧
+      TagRel (expSrc mk1 al r1 look cx m as o1).2 (expSrc mk2 al r2 look cx m as o2).2 := by
   obtain ⟨a, s⟩ := as
   cases s with
   | scope i c r t => exact ⟨rfl, h⟩
@@ -569,38 +569,38 @@ theorem expSrc_sim {mk1 mk2 : String → Option String} {r1 r2 : RecDef} (hr : R
       refine ⟨?_, h1⟩
       simp only [eraseTagPair, Src.eraseTag, h2]
 
-theorem expSrcs_sim {mk1 mk2 : String → Option String} {r1 r2 : RecDef} (hr : RecSim r1 r2) (look : Look)
-    (m : List Nat) (srcs : List (String × Src)) :
+theorem expSrcs_sim {mk1 mk2 : String → Option String} {al : AliasFn} {r1 r2 : RecDef} (hr : RecSim r1 r2) (look : Look)
+    (cx : FragCtx) (m : List Nat) (srcs : List (String × Src)) :
     ∀ o1 o2, TagRel o1 o2 →
-      (expSrcs mk1 r1 look m srcs o1).1.map eraseTagPair = (expSrcs mk2 r2 look m srcs o2).1.map eraseTagPair ∧
-        TagRel (expSrcs mk1 r1 look m srcs o1).2 (expSrcs mk2 r2 look m srcs o2).2 := by
+      (expSrcs mk1 al r1 look cx m srcs o1).1.map eraseTagPair = (expSrcs mk2 al r2 look cx m srcs o2).1.map eraseTagPair ∧
+        TagRel (expSrcs mk1 al r1 look cx m srcs o1).2 (expSrcs mk2 al r2 look cx m srcs o2).2 := by
   induction srcs with
   | nil => intro o1 o2 h; exact ⟨rfl, h⟩
   | cons as rest ih =>
     intro o1 o2 h
-    obtain ⟨h1, h2⟩ := expSrc_sim (mk1 := mk1) (mk2 := mk2) hr look m as o1 o2 h
+    obtain ⟨h1, h2⟩ := expSrc_sim (mk1 := mk1) (mk2 := mk2) (al := al) hr look cx m as o1 o2 h
     obtain ⟨h3, h4⟩ := ih _ _ h2
     simp only [expSrcs, List.map_cons]
     exact ⟨by rw [h1, h3], h4⟩
 
-theorem expScope_sim {mk1 mk2 : String → Option String} {r1 r2 : RecDef} (hr : RecSim r1 r2) (look : Look)
-    (m : List Nat) (sc : LScope) (o1 o2 : List LScope) (h : TagRel o1 o2) :
-    (expScope mk1 r1 look m sc o1).1.eraseTag = (expScope mk2 r2 look m sc o2).1.eraseTag ∧
-      TagRel (expScope mk1 r1 look m sc o1).2 (expScope mk2 r2 look m sc o2).2 := by
+theorem expScope_sim {mk1 mk2 : String → Option String} {al : AliasFn} {r1 r2 : RecDef} (hr : RecSim r1 r2) (look : Look)
+    (cx : FragCtx) (m : List Nat) (sc : LScope) (o1 o2 : List LScope) (h : TagRel o1 o2) :
+    (expScope mk1 al r1 look cx m sc o1).1.eraseTag = (expScope mk2 al r2 look cx m sc o2).1.eraseTag ∧
+      TagRel (expScope mk1 al r1 look cx m sc o1).2 (expScope mk2 al r2 look cx m sc o2).2 := by
   cases sc with
   | select projs fb srcs =>
-    obtain ⟨h1, h2⟩ := expSrcs_sim (mk1 := mk1) (mk2 := mk2) hr look m srcs o1 o2 h
+    obtain ⟨h1, h2⟩ := expSrcs_sim (mk1 := mk1) (mk2 := mk2) (al := al) hr look cx m srcs o1 o2 h
     refine ⟨?_, h2⟩
     simp only [expScope, LScope.eraseTag]
     congr 1
   | union op l r names => exact ⟨rfl, h⟩
   | wrap i => exact ⟨rfl, h⟩
 
-theorem expFrag_sim {mk1 mk2 : String → Option String} {r1 r2 : RecDef} (hr : RecSim r1 r2) (look : Look)
-    (frag : List LScope) :
+theorem expFrag_sim {mk1 mk2 : String → Option String} {al : AliasFn} {r1 r2 : RecDef} (hr : RecSim r1 r2) (look : Look)
+    (implicit : List (Nat × String)) (frag : List LScope) :
     ∀ m o1 o2, TagRel o1 o2 →
-      TagRel (expFrag mk1 r1 look frag m o1).1 (expFrag mk2 r2 look frag m o2).1 ∧
-        (expFrag mk1 r1 look frag m o1).2 = (expFrag mk2 r2 look frag m o2).2 := by
+      TagRel (expFrag mk1 al r1 look implicit frag m o1).1 (expFrag mk2 al r2 look implicit frag m o2).1 ∧
+        (expFrag mk1 al r1 look implicit frag m o1).2 = (expFrag mk2 al r2 look implicit frag m o2).2 := by
   induction frag with
   | nil =>
     intro m o1 o2 h
@@ -608,15 +608,15 @@ theorem expFrag_sim {mk1 mk2 : String → Option String} {r1 r2 : RecDef} (hr : 
     exact ⟨h, by rw [tagRel_length h]⟩
   | cons sc rest ih =>
     intro m o1 o2 h
-    obtain ⟨h1, h2⟩ := expScope_sim (mk1 := mk1) (mk2 := mk2) hr look m sc o1 o2 h
+    obtain ⟨h1, h2⟩ := expScope_sim (mk1 := mk1) (mk2 := mk2) (al := al) hr look ⟨implicit, m.length⟩ m sc o1 o2 h
     simp only [expFrag]
     rw [tagRel_length h2]
     apply ih
     unfold TagRel at h2 ⊢
     simp only [List.map_append, List.map_cons, List.map_nil, h1, h2]
 
-theorem expandF_sim (mk1 mk2 : String → Option String) (look : Look) :
-    ∀ f, RecSim (expandF mk1 look f) (expandF mk2 look f) := by
+theorem expandF_sim (mk1 mk2 : String → Option String) (al : AliasFn) (look : Look) :
+    ∀ f, RecSim (expandF mk1 al look f) (expandF mk2 al look f) := by
   intro f
   induction f with
   | zero =>
@@ -628,22 +628,28 @@ theorem expandF_sim (mk1 mk2 : String → Option String) (look : Look) :
   | succ f ih =>
     intro d o1 o2 h
     simp only [expandF]
-    exact expFrag_sim ih look d.scopes [] o1 o2 h
+    exact expFrag_sim ih look d.implicit d.scopes [] o1 o2 h
 
-/-- `expand` and hand-inlining produce the same scopes up to tags, and the same root -/
+/-- `expand` and hand-inlining produce the same scopes up to tags, and the same root (any alias rule) -/
+theorem expandQA_sim (mk1 mk2 : String → Option String) (al : AliasFn) (look : Look) (fuel : Nat)
+    (implicit : List (Nat × String)) (main : List LScope) :
+    (expandQA mk1 al look fuel implicit main).1.map LScope.eraseTag =
+        (expandQA mk2 al look fuel implicit main).1.map LScope.eraseTag ∧
+      (expandQA mk1 al look fuel implicit main).2 = (expandQA mk2 al look fuel implicit main).2 :=
+  expFrag_sim (expandF_sim mk1 mk2 al look fuel) look implicit main [] [] [] rfl
+
 theorem expandQ_sim (mk1 mk2 : String → Option String) (look : Look) (fuel : Nat) (main : List LScope) :
     (expandQ mk1 look fuel main).1.map LScope.eraseTag = (expandQ mk2 look fuel main).1.map LScope.eraseTag ∧
       (expandQ mk1 look fuel main).2 = (expandQ mk2 look fuel main).2 :=
-  expFrag_sim (expandF_sim mk1 mk2 look fuel) look main [] [] [] rfl
+  expandQA_sim mk1 mk2 keepAlias look fuel [] main
 
 /-! keys normalised once -/
 
-theorem findKeyed_sound {k : String} {defs : List (String × List LScope)} {d : SrcDef}
-    (h : findKeyed k defs = some d) : d.name = k ∧ (k, d.scopes) ∈ defs := by
+theorem findKeyed_sound {k : String} {defs : List SrcDef} {d : SrcDef}
+    (h : findKeyed k defs = some d) : d.name = k ∧ d ∈ defs := by
   induction defs with
   | nil => simp [findKeyed] at h
   | cons x xs ih =>
-    obtain ⟨dk, sc⟩ := x
     simp only [findKeyed] at h
     cases hr : findKeyed k xs with
     | some d' =>
@@ -658,25 +664,23 @@ theorem findKeyed_sound {k : String} {defs : List (String × List LScope)} {d : 
       · rename_i hk
         simp only [Option.some.injEq] at h
         subst h
-        subst hk
-        exact ⟨rfl, List.mem_cons_self⟩
+        exact ⟨hk, List.mem_cons_self⟩
       · cases h
 
-theorem findKeyed_complete {k : String} {defs : List (String × List LScope)} (h : ∃ sc, (k, sc) ∈ defs) :
+theorem findKeyed_complete {k : String} {defs : List SrcDef} (h : ∃ d ∈ defs, d.name = k) :
     ∃ d, findKeyed k defs = some d := by
   induction defs with
-  | nil => obtain ⟨_, h⟩ := h; cases h
+  | nil => obtain ⟨_, h, _⟩ := h; cases h
   | cons x xs ih =>
-    obtain ⟨dk, sc⟩ := x
     simp only [findKeyed]
     cases hr : findKeyed k xs with
     | some d' => exact ⟨d', rfl⟩
     | none =>
-      obtain ⟨sc', hm⟩ := h
+      obtain ⟨d, hm, hk⟩ := h
       rcases List.mem_cons.mp hm with heq | hm'
-      · simp only [Prod.mk.injEq] at heq
-        simp [heq.1]
-      · obtain ⟨d, hd⟩ := ih ⟨sc', hm'⟩
+      · subst heq
+        simp [hk]
+      · obtain ⟨d2, hd⟩ := ih ⟨d, hm', hk⟩
         rw [hr] at hd
         cases hd
 
